@@ -24,7 +24,8 @@ META = {
     "explanation": "symbolic execution of Response.__init__/value/status/__getattr__/__str__ of every "
                    "reachable response class with a symbolic answer byte; bitmap loops fork per bit",
     "bounds_note": "constructor arguments: 19 non-frame objects incl. every falsy one (0, False, '', b'', [], {}, (), 0.0)",
-    "bounds": ["all response classes reachable from the library's command classes plus the base classes",
+    "bounds": ["the frame passed in is compared after all reads; bitmap re-read after the convenience properties",
+               "all response classes reachable from the library's command classes plus the base classes",
                "answer byte 0..255 symbolic", "outcomes: none / clean / framing error",
                "non-frame constructor arguments: a concrete list of 9 objects",
                "bitmap histories: another bitmap class decodes the same byte and this class the complemented "
